@@ -30,8 +30,12 @@ from ..core import Ctx, load_corpus
 
 ID = "C19"
 LEVEL = "proof"
+STRENGTH = "partial"   # several clauses hold only under named guards (open findings F2, F3, F5, F6, F7, F8), see LEVEL_TEXT
 ENGINES = ["lean-model", "kopfsim", "pyextract"]
-TIE = ("S: real infinite_watch vs the Lean world machine, act by act, on seeded fault scripts; "
+TIE = ("S: real infinite_watch vs the Lean world machine, act by act, on seeded fault scripts; D: what the real namespace observer "
+       "was fed (listing, listed items, events) and insights.namespaces after each item vs the Lean `evView`; A': the real orchestrator's "
+       "label trace (revise/acquire/termDone/spawnAll/die, from hooks on insights.revised.notify_all, terminate_redundancies, adjust_tasks, "
+       "task done-callbacks) replayed by the Lean LTS: every label enabled, same keys after each pass; "
        "A: real adjust_tasks vs the Lean ensemble on insight histories; T: AST check that orchestrator() awaits adjust_tasks "
        "inside `async with insights.revised` (re-proved equal to the model's locked variant); whole-operator runs, incl. "
        "rapid namespace/CRD changes during a suspended pass, checked by the oracle")
@@ -45,24 +49,30 @@ LEVEL_TEXT = (
     "(possibility under a cooperative environment; no fairness/liveness is proved); PARTIAL: paused_silent_partial (guard: no attempt "
     "re-sent by api.request's retry loop; paused_retry_witness = open C19-F2, listings only; paused_no_watch_attempt: no watch request "
     "is sent or re-sent while paused); LIMIT with witness: deleted_in_relist_gap_witness "
-    "(open C19-F5). For ALL histories of insight revisions and watcher deaths: adjust_keys, watchers_nodup, kept_tasks_kept, "
+    "(open C19-F5). Cluster→insights (namespaces; observation.py, modelled as a consumer of the same watch machine that ignores "
+    "listed items): PARTIAL insights_follow_cluster_partial (guard AllDelivered: every change since the observer's own listing went "
+    "through the stream as an event; listed_namespace_ignored_witness = open C19-F8); the out-of-order application of events of two "
+    "incarnations of one namespace (open C19-F7) and the CRD half of the insights are covered by the oracle only. For ALL histories of insight revisions and watcher deaths: adjust_keys, watchers_nodup, kept_tasks_kept, "
     "served_pairs_have_live_watcher; PARTIAL: exactly_one_watch_partial (guards: fixed mode — cluster-wide incl. the empty start-up "
     "revisions, or namespaced —, stable scope, and in namespaced mode a namespace served or no cluster-scoped resource; "
     "exactly_one_watch_lingering_witness = open C19-F3). For ALL interleavings of observer revisions, task deaths and orchestrator "
     "segments around insights.revised: pass_progress (enabledness), no_lost_wakeup, exactly_one_watch_async_partial, "
-    "served_pairs_live_async (guard: no death since the last pass; death_while_idle_witness = open C19-F6), "
+    "served_pairs_live_async_partial (guard: no death since the last pass; death_while_idle_witness = open C19-F6), "
     "unlocked_pass_loses_wakeup_witness. The models are hand-written and tied to the code by correspondence runs; the pass-under-lock "
     "shape of orchestrator() is re-extracted from the AST on every run.")
 THEOREMS = [("Kopf.Props.C19", "Kopf.C19." + n) for n in [
     # one watch-stream, all adversary scripts
     "consumer_view_is_server_state", "no_skip_inv", "no_skip", "listing_yields_live", "deleted_in_relist_gap_witness",
     "deliver_in_order", "resume_point", "relist_on_410", "respond_never_fails", "unknown_error_raises", "failed_is_final",
-    "paused_silent_partial", "paused_retry_witness", "paused_no_watch_attempt", "pause_noticed_is_quiet", "fresh_list_on_resume", "quiescence_reachable",
+    "paused_silent_partial", "paused_retry_witness", "paused_no_watch_attempt", "paused_no_event", "pause_noticed_is_quiet",
+    "fresh_list_on_resume", "quiescence_reachable",
+    # cluster → insights (namespaces)
+    "insights_follow_cluster_partial", "listed_namespace_ignored_witness",
     # adjust_tasks over histories of revisions and task deaths
     "adjust_keys", "watchers_nodup", "kept_tasks_kept", "served_pairs_have_live_watcher",
     "exactly_one_watch_partial", "exactly_one_watch_lingering_witness",
     # the orchestrator around insights.revised, all interleavings
-    "pass_progress", "no_lost_wakeup", "exactly_one_watch_async_partial", "served_pairs_live_async",
+    "pass_progress", "no_lost_wakeup", "exactly_one_watch_async_partial", "served_pairs_live_async_partial",
     "death_while_idle_witness", "unlocked_pass_loses_wakeup_witness"]]
 TIE_THEOREMS = [("Kopf.Tie.C19", "Kopf.C19.Tie.pass_under_lock")]
 RULE = ("stream scripts: first resourceVersion just below 10/100/1000 in 35 % of the scripts (the versions change their digit count "
@@ -72,7 +82,8 @@ RULE = ("stream scripts: first resourceVersion just below 10/100/1000 in 35 % of
         "re-sent attempt is a `retry` act of the model) on list or watch}, isolated pause/resume moments, server/client/inactivity timeouts small enough to fire; "
         "histories: 2-7 insight revisions (30 % followed by running watchers exiting on their own) over 3 resources (2 namespaced, 1 cluster-scoped) × 4 namespaces, cluster-wide or "
         "namespaced mode; operator runs: namespace/CRD churn, rapid successions during a suspended pass, object deletions, stream "
-        "breaks; a case is distinct by its abstracted (act, outputs) sequence and non-trivial when a fault, a pause "
+        "breaks, and 'meta' runs that break/compact/410 the observers' own namespaces/CRD watch-streams with namespaces/CRDs created or "
+        "deleted inside the re-list gap and between the two start-up listings; a case is distinct by its abstracted (act, outputs) sequence and non-trivial when a fault, a pause "
         "or a removal occurs")
 TRUSTED = ["harness/sim fake API (list/watch/replay/410 semantics, fault injection) and virtual-time loop",
            "harness/props/sim_c19.py observation points (api.request wrapper, watching.asyncio proxy, FakeContent.iter_chunked wrapper, ToggleSet subclass)",
@@ -86,7 +97,13 @@ ASSUMPTIONS = ["resource versions are modelled as naturals (Kubernetes: opaque s
                "between the pause toggle and the moment the pause-waiter task has run (`notice`) requests may still go out; a listing answered "
                "while paused is still yielded",
                "a resource keeps its scope (namespaced/cluster) over a history; operator mode (cluster-wide vs namespaced) is fixed per run",
-               "peering absent (standalone or peering CRD not in the backbone)",
+               "peering absent (standalone or peering CRD not in the backbone): hence no whole-operator run ever pauses; the pause is exercised on "
+               "infinite_watch directly (tie S); the meta-watchers (namespaces/CRDs) run with operator_paused=None and do list and watch while paused, by design",
+               "\"served\" means \"in Insights\"; the cluster→insights map is modelled for namespaces only (Model/C19_Insights: listed items ignored, events "
+               "applied) and tied by the observer-feed comparison; pattern matching, the CRD/resource half (revise_resources, API-group re-scans, "
+               "ambiguity/verbs filters) and the cross-uid ordering of namespace events (C19-F7) are unmodelled: oracle only",
+               "an ERROR event without `code` raises KeyError (not WatchingError), HTTP 410 on a LIST is swallowed like an escalated 429: both generated and "
+               "tied; an event without metadata.resourceVersion keeps the old `since` in the code: not generated",
                "orchestrator LTS: the orchestrator reaches its first wait() before the first revision (observers need API round-trips first); "
                "a pass is atomic w.r.t. the ensemble because aiotasks.stop() has no timeout; a watcher ending with a non-404 error cancels the "
                "orchestrator and stops the operator (kopf 9ef1bcb) — that edge is C20's subject and not in the C19 models",
@@ -871,7 +888,10 @@ def oracle_operator(sc: dict, r: dict) -> list[tuple[str, dict]]:
                 fails.append((f"t={c['t']}: served pair(s) {missing} have no watch: the watcher died on HTTP 404 while its CRD was away, "
                               "its key stayed in the ensemble, and it is never started again", F4_SIG))
             elif not dup and (extra or missing) and all(
-                    (SCOPE[m[0]] and m[1] is not None and _in_gap(sc, "ns", m[1])) or _in_gap(sc, "res", m[0]) for m in extra + missing):
+                    (SCOPE[m[0]] and m[1] is not None and _in_gap(sc, "ns", m[1])) or _in_gap(sc, "res", m[0])
+                    # a cluster-scoped watch kept because a namespace deleted in a gap still counts as served
+                    or (not SCOPE[m[0]] and m in extra and any(o[1] == "del_ns" and _in_gap(sc, "ns", o[2]) for o in sc["timeline"]))
+                    for m in extra + missing):
                 fails.append((f"t={c['t']}: open watches {got} != served pairs {want}: the namespace/CRD of {extra + missing} changed while "
                               "its meta-watch was down and was only seen in a listing, which the observers ignore", F8_SIG))
             elif not dup and not extra and missing and all(SCOPE[m[0]] and m[1] is not None and _recreated(sc, m[1]) for m in missing):
@@ -958,6 +978,19 @@ def eval_operator(sc: dict) -> dict:
     # a pass cut off by the end of the run is dropped (the trace must end after a spawnAll, or in wait())
     while trace and trace[-1][0] in ("acquire", "termDone"):
         trace = trace[:-1]
+    # a watcher that is being stopped by this very pass (redundant) and ends meanwhile is not a death on its own:
+    # drop `die k` inside a pass when `k` is not in the ensemble after that pass
+    filtered: list = []
+    seg_start = None
+    for l in trace:
+        if l[0] == "acquire":
+            seg_start = len(filtered)
+        filtered.append(l)
+        if l[0] == "spawnAll" and seg_start is not None:
+            keys = [list(k) for k in l[1]]
+            filtered[seg_start:] = [x for x in filtered[seg_start:] if not (x[0] == "die" and list(x[1]) not in keys)]
+            seg_start = None
+    trace = filtered
     orchreq = ["C19.orch", [l[:1] if l[0] == "spawnAll" else l for l in trace]] if trace else None
     orchimpl = [l[1] for l in trace if l[0] == "spawnAll"]
     return {"sc": sc, "fails": fails, "churn": churn, "checkpoints": len(r["checkpoints"]), "nsreq": nsreq, "nsimpl": nsimpl,
